@@ -219,6 +219,15 @@ def common_proof_part(res, pid, extra_targets=()):
         "checker_cmd": "make -C coq props/%s.vo (coq_makefile full build) && coqc props/%s.v (Print Assumptions re-read)" % (pid, pid),
         "trusted_base": TRUSTED_BASE, "theorems": rep["theorems"],
         "axioms_reported": rep["axioms"], "closed_under_global_context": rep["closed"], "hygiene_hits": hy})
+    if proof_ok and res.tier == "thorough":
+        # independent re-check of the compiled theorem file and everything it depends on
+        rc, out = sh("coqchk -o -silent -Q theories IRC -Q proofs IRCP -Q props IRCProps IRCProps.%s" % pid, cwd=COQ, timeout=3000)
+        m = re.search(r"\* Axioms:\s*(.*?)\n\s*\n", out, re.S)
+        ax = m.group(1).strip() if m else "?"
+        res.coverage["coqchk"] = {"exit": rc, "axioms": ax, "cmd": "coqchk -o -silent ... IRCProps.%s" % pid}
+        if rc != 0 or ax != "<none>":
+            proof_ok = False
+            out = "coqchk: exit %d, axioms %s\n%s" % (rc, ax, out[-1000:])
     if not proof_ok:
         res.proof_broken = {"build_ok": ok, "props_ok": rep["ok"], "hygiene": hy, "axioms": bad_axioms,
                             "log_tail": (out if not ok else rep["log"])[-1500:]}
